@@ -632,6 +632,18 @@ MUTANTS = [
          "        if( m_is_final )\n            m_body(m_range, final_scan_tag());\n        if( m_sum_slot )")]),
     dict(name='c06-sort-direct-write', prop='C06', clause='D5', edits=[
         ('include/oneapi/tbb/parallel_sort.h', "        if( m != 0 ) std::iter_swap(array, array + m);", "        if( m != 0 ) array[0] = array[m];")]),
+    dict(name='c06-seed3-scan-summary-published-before-the-body-ran', prop='C06', clause='D4', edits=[('include/oneapi/tbb/parallel_scan.h',
+        """        if( m_is_final )
+            m_body(m_range, final_scan_tag());
+        else if( m_sum_slot )
+            m_body(m_range, pre_scan_tag());
+        if( m_sum_slot )
+            *m_sum_slot = &m_body.get();""", """        if( m_sum_slot )
+            *m_sum_slot = &m_body.get();
+        if( m_is_final )
+            m_body(m_range, final_scan_tag());
+        else if( m_sum_slot )
+            m_body(m_range, pre_scan_tag());""")]),
     # ---------------------------------------------------------------- C07
     dict(name='c07-next-token-unlocked', prop='C07', clause='D1', edits=[
         (PP_CPP, "        task_info wakee;\n        {\n            spin_mutex::scoped_lock lock( array_mutex );\n            // Wake the next task", "        task_info wakee;\n        {\n            // Wake the next task")]),
